@@ -14,6 +14,14 @@ import (
 const maxDepth = 24
 
 func (e *Exec) call(st *State, fr *Frame, self ssa.Value, cc *ssa.CallCommon, pos token.Pos) []Outcome {
+	e.dstIsDiscard = false
+	if len(cc.Args) > 0 {
+		if ld, ok := cc.Args[0].(*ssa.UnOp); ok {
+			if g, ok := ld.X.(*ssa.Global); ok && g.Name() == "Discard" && (g.Pkg.Pkg.Path() == "io" || g.Pkg.Pkg.Path() == "io/ioutil") {
+				e.dstIsDiscard = true
+			}
+		}
+	}
 	var args []Value
 	for _, a := range cc.Args {
 		args = append(args, e.val(fr, a))
@@ -204,7 +212,17 @@ func (e *Exec) callFunction(st *State, fr *Frame, fn *ssa.Function, args []Value
 	// call-site assertions of the function under verification
 	if fr.top && e.topSpec != nil && e.specMode == 0 && e.discovery == 0 {
 		for _, cl := range e.topSpec.AtCall[fn.Name()] {
-			t := e.evalSpec(st, fr, cl, func(n string, t types.Type) (Value, bool) { return e.topEnvLookup(st, fr, n, t) }, true)
+			t := e.evalSpec(st, fr, cl, func(n string, t types.Type) (Value, bool) {
+				if strings.HasPrefix(n, "arg_") { // the callee's argument of that name
+					for i, p := range fn.Params {
+						if p.Name() == strings.TrimPrefix(n, "arg_") {
+							return args[i], true
+						}
+					}
+					return nil, false
+				}
+				return e.topEnvLookup(st, fr, n, t)
+			}, true)
 			e.obligeNamed(st, fmt.Sprintf("%s#at-call.%s.%s", e.curFn, fn.Name(), strings.Join(cl.Labels, ",")), "at-call", cl.Labels, "", t)
 		}
 	}
@@ -439,6 +457,20 @@ func (e *Exec) callOpaque(st *State, fr *Frame, cc *ssa.CallCommon, f *FuncV, ar
 		if fn, ok := funcByID[int64(f.Opq.Val)]; ok {
 			return e.callFunction(st, fr, fn.(*ssa.Function), args, nil, pos)
 		}
+	}
+	if e.topSpec != nil && e.topSpec.PureFuncValues {
+		e.note("ASSUMED: function values stored in fields (user-supplied handlers) return arbitrary results and do not modify the state the contracts speak about")
+		if f.Opq != nil {
+			e.oblige(st, fr, "safe.nilfunc", pos, Not(Eq(f.Opq, IntConst(0))))
+		}
+		var rs []Value
+		res := cc.Signature().Results()
+		for i := 0; i < res.Len(); i++ {
+			v := freshValue("handler", res.At(i).Type())
+			e.assumeValid(st, res.At(i).Type(), v)
+			rs = append(rs, v)
+		}
+		return one(st, rs...)
 	}
 	panic(unsupported("call through an opaque function value"))
 }
